@@ -28,7 +28,7 @@ type chain struct {
 	inter      [][]byte
 }
 
-var chainNames = []string{"mixed-key-cert", "three-for-two", "parameters", "unclean-paths", "sublayout", "plain", "cert-via-intermediate", "second-layout-key-did-not-sign"}
+var chainNames = []string{"mixed-key-cert", "three-for-two", "parameters", "unclean-paths", "sublayout", "plain", "cert-via-intermediate", "second-layout-key-did-not-sign", "layout-key-with-private-part"}
 
 // buildChain materialises one of the generated supply chains below base.
 func buildChain(base, name string, dsse bool) *chain {
@@ -113,6 +113,12 @@ func buildChain(base, name string, dsse bool) *chain {
 			panic(err)
 		}
 		return c
+	case "layout-key-with-private-part":
+		// the owner verifies with the key pair it signed with (private part included): the key objects are the caller's
+		c.keys = func() map[string]intoto.Key { return map[string]intoto.Key{owner.ID: owner.Full} }
+		sup := gen.NewSupply(dir, 2, 1, dsse)
+		c.linkDir = sup.LinkDir
+		lay = sup.Layout
 	case "second-layout-key-did-not-sign":
 		// two layout keys are supplied, the layout carries the signature of one: refused under every order of the key loop
 		other := gen.Key("ed6")
@@ -574,7 +580,7 @@ var _ = sort.Strings
 func init() {
 	mcx.Register(&mcx.Driver{
 		ID: "C10", Run: run, Replay: replay,
-		Rule: "eight generated supply chains (step mixing key- and certificate-authorised links with threshold 2 and three links; three agreeing links with different by-products for threshold 2 on the last step; {P} markers in rules, command and inspection run; un-clean artifact paths under MATCH rules with two links; a sublayout; a plain chain; a step whose certificate functionary reaches the layout root only through a caller-supplied intermediate, with two-valued constraint lists; a chain verified with two layout keys of which one did not sign) x {legacy, DSSE}, parameter dictionaries incl. values that hold another parameter's marker: " +
+		Rule: "nine generated supply chains (step mixing key- and certificate-authorised links with threshold 2 and three links; three agreeing links with different by-products for threshold 2 on the last step; {P} markers in rules, command and inspection run; un-clean artifact paths under MATCH rules with two links; a sublayout; a plain chain; a step whose certificate functionary reaches the layout root only through a caller-supplied intermediate, with two-valued constraint lists; a chain verified with two layout keys of which one did not sign; a chain verified with the owner's full key pair) x {legacy, DSSE}, parameter dictionaries incl. values that hold another parameter's marker: " +
 			"(1) InTotoVerify under every combination of iteration orders with at most 1 (thorough: 2) deviations from sorted order plus ALL permutations at the counting loop, the reference-link pick, the sublayout loops, the parameter loop and the layout-key loop; verdict and canonical summary must be identical in all executions; " +
 			"(2) explicit-state BFS over histories of operations {V(), V(P=f), V(P=x), VDir(P=f); parameters chain: + V(P={Q},Q=f); intermediate chain: + V(-inter) without the intermediates} on the same in-memory layout and key objects (full tree to depth 2, deeper levels from states not seen before, depth 3 quick / 4 thorough): every operation's result equals that of the same operation on freshly loaded copies and the serialisation of layout, keys and link files is unchanged; " +
 			"(3) VerifyArtifacts, SubstituteParameters, ReduceStepsMetadata, VerifyLinkSignatureThesholds called twice on the same in-memory objects. states = executions (part 1) + distinct history states; transitions = choice points + operations.",
